@@ -134,8 +134,12 @@ def main(argv):
     audits = []
     solver = {}
     cmds = []
+    all_obl, all_failed, all_artifact = set(), set(), set()
     for r in main_runs:
         lm = r["asm"]["linemap"]
+        all_obl |= set(lm["obligations"])
+        all_failed |= set(r["cls"]["failed"]) | set(r["cls"]["rlimit"])
+        all_artifact |= set(r["cls"].get("artifact", {}))
         for oid, info in lm["obligations"].items():
             # a named obligation inside injected proof text (tagged invariant / assert / lemma call) belongs to whoever claims the
             # function's body obligations
@@ -222,6 +226,30 @@ def main(argv):
             continue
         violations.append((oid, msgs))
 
+    # alternative mechanisms (props: "alternatives"): a requirement of the property that the code may meet in more than one way.
+    # Each mechanism is a set of obligations; when one mechanism is fully discharged (and its structural premise holds), failures of
+    # obligations that belong only to the OTHER mechanisms of the same requirement are not violations of the property
+    alt_notes = []
+    for alt in prop.get("alternatives", []):
+        holds = []
+        for mech in alt["mechanisms"]:
+            oids = mech["obligations"]
+            ok = all(o in all_obl for o in oids) and not any(o in all_failed for o in oids) \
+                and not any(o.rsplit(".", 1)[0] in all_artifact for o in oids) and structural_premise_holds(mech.get("premise"))
+            holds.append(ok)
+        if not any(holds):
+            continue
+        good = {o for mech, ok in zip(alt["mechanisms"], holds) if ok for o in mech["obligations"]}
+        excused = {o for mech, ok in zip(alt["mechanisms"], holds) if not ok for o in mech["obligations"]} - good
+        kept = []
+        for oid, msgs in violations:
+            if oid in excused:
+                which = next(mech["name"] for mech, ok in zip(alt["mechanisms"], holds) if ok)
+                alt_notes.append(f"{oid} is not discharged, but `{alt['requirement']}` is still met by the mechanism `{which}` (discharged): not a violation")
+            else:
+                kept.append((oid, msgs))
+        violations = kept
+
     if replay_note and not replay_note.startswith("replays skipped"):
         undecided.append(replay_note)
 
@@ -288,10 +316,37 @@ def main(argv):
         print(ln)
     print(f"{pid}: obligations={len(must)} discharged={len(discharged)} expected-fail={len(expfail)} "
           f"violations={len(violations)} canaries={canaries['rejected']}/{canaries['expected']} wall={wall:.1f}s")
+    for n_ in alt_notes:
+        print("note (alternative mechanism):", n_)
     if undecided:
         for u in undecided:
             print("note (undecided part):", u)
     return 1 if (violations or replay_violations) else 0
+
+
+def structural_premise_holds(premise):
+    """premise of an alternative mechanism that is a fact about the program text, e.g. {"single_call_site": {"file": "src/session/session.rs",
+    "callee": "write_with_padding", "caller": "write_frame"}}: every call of `callee` in the file is inside `caller`"""
+    if not premise:
+        return True
+    sc = premise.get("single_call_site")
+    if sc:
+        try:
+            from . import tok as T
+            from . import extract as X
+            toks, _ = T.tokenize(open(os.path.join(A.REPO, sc["file"])).read(), keep_comments=False)
+            _, _, bo, bc = X.find_fn(toks, sc["caller"], sc.get("impl"))
+        except Exception:
+            return False
+        n_in, n_out = 0, 0
+        for k in range(len(toks) - 2):
+            if toks[k].text == "." and toks[k + 1].text == sc["callee"] and toks[k + 2].text == "(":
+                if bo <= k <= bc:
+                    n_in += 1
+                else:
+                    n_out += 1
+        return n_in >= 1 and n_out == 0
+    return False
 
 
 def run_replays(pid, known):
@@ -304,7 +359,7 @@ def run_replays(pid, known):
     if A.REPO != "/repo":
         return {}, "", "replays skipped: the replay crate depends on /repo by path and VERIF_REPO points elsewhere"
     cmd = ["cargo", "test", "--offline", "--manifest-path", os.path.join(ROOT, "replay", "Cargo.toml"),
-           "--test", "findings", "--test", "frontends", "--test", "c19", "--test", "c18", "--test", "c11", "--test", "c12", "--test", "c14", "--test", "c08", "--"] + names + ["--test-threads", "2"]
+           "--test", "findings", "--test", "frontends", "--test", "c19", "--test", "c18", "--test", "c11", "--test", "c12", "--test", "c14", "--test", "c08", "--test", "c14d", "--"] + names + ["--test-threads", "2"]
     env = dict(os.environ, CARGO_NET_OFFLINE="true")
     try:
         pr = subprocess.run(cmd, capture_output=True, text=True, timeout=1500, env=env)
